@@ -32,7 +32,7 @@ from core.report import Result
 from core.types import NONE, members
 
 from . import search as S
-from .searchrules import unresolved_subtree_sets
+from .searchrules import start_filters, unresolved_subtree_sets
 from .c03_absint import Const, E, Interp, Opaque, Ref, Sc, Top, Tup, V
 from .common import guard_formula, stmt_of, types_of, where
 # anchors: modules and classes that other modules of pytestarch import by these names (nothing private)
@@ -93,7 +93,14 @@ def run_r1(repo: Repo, res: Result, rule_id: str = "C03.R1") -> None:
         if sources is not None:
             n += 1
             ok = bool(sources) and all(s in own for s in sources)
-            res.add(rule_id, f"{fi.relpath}::{getattr(fi, 'shown', fi.qualname)}::worklist start", ok, f"worklist starts from {S.SUBMODULES}(graph, {subj})" if ok else f"worklist starts from `{', '.join(sources) or '?'}`, not only from the subject's subtree", where(fi, m.loop), kind="structural")
+            # a start list that is a filtered copy of the sub-tree: every node that has to be examined must pass the filter
+            bad_filter = next((f_ for f_ in start_filters(m, subj, own) if f_[1] != "ok"), None) if ok else None
+            if bad_filter is not None and bad_filter[1] == "undecided":
+                res.undecide(rule_id, f"{fi.relpath}::{getattr(fi, 'shown', fi.qualname)}::worklist start", bad_filter[2], where(fi, m.loop))
+            elif bad_filter is not None:
+                res.add(rule_id, f"{fi.relpath}::{getattr(fi, 'shown', fi.qualname)}::worklist start", False, bad_filter[2], where(fi, m.loop), kind="structural")
+            else:
+                res.add(rule_id, f"{fi.relpath}::{getattr(fi, 'shown', fi.qualname)}::worklist start", ok, f"worklist starts from {S.SUBMODULES}(graph, {subj})" if ok else f"worklist starts from `{', '.join(sources) or '?'}`, not only from the subject's subtree", where(fi, m.loop), kind="structural")
         else:
             inits = [s_ for s_ in own_nodes(fi.node) if isinstance(s_, ast.Assign) and isinstance(s_.targets[0], ast.Name) and s_.targets[0].id == m.worklist]
             for s_ in inits:
